@@ -5,6 +5,7 @@ import (
 	"errors"
 	"io"
 	"net"
+	"tunnox-core/internal/cloud/models"
 
 	"tunnox-core/internal/config"
 	"tunnox-core/internal/stream"
@@ -32,6 +33,11 @@ func (a *c17Adapter) PrepareConnection(conn io.ReadWriteCloser) error {
 
 type c17Client struct {
 	ClientInterface
+	quota int
+}
+
+func (c *c17Client) GetUserQuota() (*models.UserQuota, error) {
+	return &models.UserQuota{MaxConnections: c.quota}, nil
 }
 
 func (c *c17Client) GetContext() context.Context { return context.Background() }
@@ -50,7 +56,12 @@ func (c *c17Local) Close() error                { c.closed = true; return nil }
 // connections arrive at limit-1 occupancy.
 func Harness_C17_mapping_limit() {
 	limit := 1 + verif_Choose(2)
-	h := &BaseMappingHandler{config: config.MappingConfig{MappingID: "m1", MaxConnections: limit}, client: &c17Client{}, trafficStats: &TrafficStats{}}
+	// the limit comes from the mapping's own configuration or, when that is 0, from the user quota
+	cfgLimit, quotaLimit := limit, 0
+	if verif_Bool() {
+		cfgLimit, quotaLimit = 0, limit
+	}
+	h := &BaseMappingHandler{config: config.MappingConfig{MappingID: "m1", MaxConnections: cfgLimit}, client: &c17Client{quota: quotaLimit}, trafficStats: &TrafficStats{}}
 	ad := &c17Adapter{h: h}
 	h.adapter = ad
 	h.activeConnCount.Store(int32(limit - 1))
